@@ -10,7 +10,10 @@ R-C14-3: the substitution phase reads gamma_ / the stored matrix only (no recomp
          DiagonalSolver::solveInPlace is const (cannot change the operator).
 R-C14-4: solveInPlace (LDL^T, Sherman-Morrison for the cyclic case) interpreted from source on matrices whose entries are
          independent symbols, n = 2..6 (9), cyclic and not: A x == b holds identically (exact arithmetic, all values with
-         non-vanishing pivots) and a second solve returns the identical solution. Rounding/backward stability: not decided.
+         non-vanishing pivots) and a second solve returns the identical solution; the work buffers arrive with arbitrary
+         contents. Rounding/backward stability: not decided.
+R-C14-5: every division denominator of the first solve (logged from the symbolic run) keeps one sign over named SPD sample
+         matrices (each verified SPD by its leading minors): a sign change means a zero on the SPD cone, i.e. a breakdown.
 """
 from gmg import ir, report, structq
 from gmg.structq import exprs_of_stmt, is_this_field, stmts_with_guards, writes_in_expr
@@ -252,7 +255,7 @@ def algebraic_solves(ck, prog, tier):
 
 
 def main(tier):
-    ck = report.Check("C14", tier, level="other", technique="static typestate/dominance rule on the factorisation flag; who-may-call over the whole-program call graph")
+    ck = report.Check("C14", tier, level="other", technique="static typestate/dominance rule on the factorisation flag; who-may-call over the whole-program call graph; symbolic interpretation of the solves with sign analysis of the extracted denominators at SPD sample matrices")
     ck.rule("R-C14-1", "stored-matrix writes dominated by !factorized_; guarded block ends with factorized_=true on every path", floor=9)
     ck.rule("R-C14-2", "mutable accessors called only from the solver and from build functions reachable only from smoother constructors", floor=20)
     ck.rule("R-C14-3", "factorized_ written only by the guarded block and constructors/special members; DiagonalSolver::solveInPlace is const", floor=3)
